@@ -22,6 +22,17 @@ pub fn basis() -> Basis {
         p.n = 2;
         p.ok = false
     }));
+    // custom parsers driving the InputRef API by hand: peek()+skip(), and save / consume / rewind / consume again
+    b.leaves.push(G::leaf(Op::Custom).with(|p| {
+        p.n = 1;
+        p.ok = true;
+        p.lo = 1
+    }));
+    b.leaves.push(G::leaf(Op::Custom).with(|p| {
+        p.n = 2;
+        p.ok = true;
+        p.lo = 3
+    }));
     b.ctors.extend(classes::rep_light());
     b.ctors.extend(classes::fold_ctors());
     b.ctors.extend(classes::recover_ctors());
